@@ -1,3 +1,4 @@
+// Every assertion message starts with the ids of the properties it speaks for ([Cnn]); the check attributes a failure by these tags.
 // BOUNDED stand-in (never counted as proof; DESIGN 8.5): a deterministic sweep over pseudo-random covenants that asserts C12 (decode/encode
 // bijection, hash and weight agree between bytes and instructions) and C11/C10 (a run executes at most weight-many instructions; running twice
 // gives the same result) on the REAL melvm crate.  It exists for one purpose: when a rewrite of these functions makes the deductive check
@@ -43,12 +44,12 @@ fn bounded_c12_programs_round_trip_through_bytes() {
         let ops = program(&mut r);
         let cov = Covenant::from_ops(&ops);
         let bytes = cov.to_bytes();
-        let back = Covenant::from_bytes(&bytes).unwrap_or_else(|e| panic!("case {case}: encoding of {ops:?} does not decode: {e:?}"));
-        assert_eq!(back.to_ops(), ops, "case {case}: encode-then-decode changed the program");
-        assert_eq!(back.to_bytes(), bytes, "case {case}: decode-then-encode changed the bytes");
-        assert_eq!(back.hash(), cov.hash(), "case {case}: hash differs between bytes and instructions");
-        assert_eq!(back.weight(), opcodes_weight(&ops), "case {case}: weight differs between bytes and instructions");
-        assert_eq!(covenant_weight_from_bytes(&bytes), opcodes_weight(&ops), "case {case}: covenant_weight_from_bytes differs from the weight of the instructions");
+        let back = Covenant::from_bytes(&bytes).unwrap_or_else(|e| panic!("[C12] case {case}: encoding of {ops:?} does not decode: {e:?}"));
+        assert_eq!(back.to_ops(), ops, "[C12] case {case}: encode-then-decode changed the program");
+        assert_eq!(back.to_bytes(), bytes, "[C12] case {case}: decode-then-encode changed the bytes");
+        assert_eq!(back.hash(), cov.hash(), "[C12] case {case}: hash differs between bytes and instructions");
+        assert_eq!(back.weight(), opcodes_weight(&ops), "[C12][C05] case {case}: weight differs between bytes and instructions");
+        assert_eq!(covenant_weight_from_bytes(&bytes), opcodes_weight(&ops), "[C12][C05] case {case}: covenant_weight_from_bytes differs from the weight of the instructions");
     }
 }
 
@@ -62,10 +63,10 @@ fn bounded_c12_byte_strings_decode_faithfully_or_fail() {
         // bias towards real opcodes so that a good share decodes
         let mut i = 0; while i < b.len() { if r.below(3) != 0 { b[i] = firsts[r.below(24) as usize]; } i += 1 + r.below(4) as usize; }
         if let Ok(c) = Covenant::from_bytes(&b) {
-            assert_eq!(&c.to_bytes()[..], &b[..], "case {case}: {b:?} decodes to a program that re-encodes differently");
-            assert_eq!(covenant_weight_from_bytes(&b), c.weight(), "case {case}: weight from bytes differs from the weight of the decoded program");
+            assert_eq!(&c.to_bytes()[..], &b[..], "[C12] case {case}: {b:?} decodes to a program that re-encodes differently");
+            assert_eq!(covenant_weight_from_bytes(&b), c.weight(), "[C12][C05] case {case}: weight from bytes differs from the weight of the decoded program");
         } else {
-            assert_eq!(covenant_weight_from_bytes(&b), 0, "case {case}: undecodable bytes must weigh 0");
+            assert_eq!(covenant_weight_from_bytes(&b), 0, "[C12][C05] case {case}: undecodable bytes must weigh 0");
         }
     }
 }
@@ -112,8 +113,8 @@ fn bounded_c11_runs_stay_within_weight_and_are_deterministic() {
         };
         let (s1, r1) = run(&ops);
         let (s2, r2) = run(&ops);
-        assert!(s1 <= w, "case {case}: {ops:?} executed {s1} instructions but weighs {w}");
-        assert_eq!((s1, format!("{r1:?}")), (s2, format!("{r2:?}")), "case {case}: two runs of {ops:?} differ");
+        assert!(s1 <= w, "[C11] case {case}: {ops:?} executed {s1} instructions but weighs {w}");
+        assert_eq!((s1, format!("{r1:?}")), (s2, format!("{r2:?}")), "[C10][C03] case {case}: two runs of {ops:?} differ");
         if s1 >= 5 { long_runs += 1; }
     }
     assert!(long_runs >= 1000, "vacuity guard: only {long_runs} of 4000 generated programs ran for five steps or more");
